@@ -1,7 +1,7 @@
 """C07 configuration for ./check (keys: see checks/propcfg.py)."""
 CFG = {
-    "modules": ["VaxisModel.Props.C07", "VaxisModel.Props.C07Caps", "VaxisModel.Props.C07Writers"],
-    "extractors": ["C07", "C04", "C18", "C03", "C07caps", "C07writers"],
+    "modules": ["VaxisModel.Props.C07", "VaxisModel.Props.C07Caps", "VaxisModel.Props.C07Writers", "VaxisModel.Props.C07Width", "VaxisModel.Props.C07Image"],
+    "extractors": ["C07", "C04", "C18", "C03", "C07caps", "C07writers", "C07sel"],
     "drivers": ["C07", "C07caps", "C01", "C04"],
     "stateful_drivers": ["C01", "C04"],
     "trivial_prefix": ("id:", "-", "bytes="),
